@@ -240,6 +240,7 @@ def ksr_for(state, variant, seq):
 
 SEQ = [0]
 FOLLOWS = {}
+ZONES = [(None, "+00:00"), ("JST-9", ""), (None, ""), ("PST8", "Z"), ("UTC", "Z"), ("PST8", ""), ("IST-5:30", "+00:00")]
 
 
 def run_transition(state, schema_name, variant, model=True):
@@ -266,8 +267,11 @@ def run_transition(state, schema_name, variant, model=True):
             with open(prev_path, "w", encoding="utf-8") as f:
                 f.write(raw[:a] + base64.b64encode(bytes(sig)).decode() + raw[b:])
     ksr_path, out_path = str(d / "ksr.xml"), str(d / "out.xml")
-    with open(ksr_path, "w") as f:
-        f.write(ksrxml.render_ksr(ksr))
+    # the host's time zone and the notation of the KSR's timestamps (all three mean UTC) vary from ceremony to ceremony
+    tz, suffix = ZONES[(seq - 1) % len(ZONES)]
+    with ksrxml.process_zone(tz, suffix):
+        with open(ksr_path, "w") as f:
+            f.write(ksrxml.render_ksr(ksr))
     now = ksr["bundles"][0]["inc"] - D(days=20)
     PinnedNow.pinned = now
     tok = S.build_token(MODULES)
@@ -283,7 +287,7 @@ def run_transition(state, schema_name, variant, model=True):
 
     ksign.make_raw_rrsig = spy_raw
     try:
-        with contextlib.redirect_stdout(io.StringIO()):
+        with contextlib.redirect_stdout(io.StringIO()), ksrxml.process_zone(tz, suffix):
             r = vlib.run_impl(tool.ksrsigner, log, ns, CFG)
     finally:
         ksign.make_raw_rrsig = orig_raw
@@ -316,6 +320,12 @@ def run_transition(state, schema_name, variant, model=True):
             new = None
             probs.append(f"emitted SKR unreadable by a standard XML parser: {type(e).__name__}")
         if new is not None:
+            got_periods = [(b["inc"], b["exp"]) for b in new["bundles"]]
+            asked = [(b["inc"], b["exp"]) for b in ksr["bundles"]]
+            if got_periods != asked:
+                j = next((n for n, (a, b) in enumerate(zip(got_periods, asked)) if a != b), min(len(got_periods), len(asked)))
+                probs.append(f"the emitted SKR covers other periods than the KSR (timestamps written ...{suffix!r}, process TZ={tz}) asked for: bundle {j + 1} "
+                             f"{[ksrxml.fmt_dt(x) for x in got_periods[j]] if j < len(got_periods) else 'missing'} instead of {[ksrxml.fmt_dt(x) for x in asked[j]] if j < len(asked) else 'nothing'}")
             if state is not None:
                 probs += timeline_problems(state["skr"], new)
             lr = vlib.run_impl(load_skr, out_path, CFG.response_policy)
